@@ -394,6 +394,22 @@ pub fn run(rep: &mut Report) {
     rep.rule = "a battery of (sketcher type, parameters, entry point, input) cases covering every public sketcher (4 ProbMinHash variants x entry points incl. std HashMap, ProbOrdMinHash2 with 2 hashers incl. reused instance, SuperMinHash f32/f64/NoHash, SuperMinHash2 u64/u32, SetSketch 6 tuples, Opt/RevOpt densification all views) is digested (bit patterns) by: (i) two passes in the main thread, (ii) 16 threads released by a barrier, each constructing its own instances, (iii) child processes (different ASLR, RandomState keys, thread_rng state), cold processes whose 16 threads start at once, and 31 pairs of configurations that differ in exactly one parameter, each run in new processes in the orders A B / B A / A A B / B B A (the digest of a configuration must not depend on what ran before). All digests of a case must agree. Distinct = battery cases; non-trivial = all (each involves randomised hashing of >= 1 item)".into();
     let seed = subseed(rep.seed, "C12/battery", &[]);
     let size = battery_size(rep.tier);
+    // canary: the battery once in a child process. If the code under test kills the process (abort, segmentation fault) the
+    // monitor itself must survive to report it: no sketch at all is not "the same sketch".
+    {
+        let exe = std::env::current_exe().unwrap();
+        match std::process::Command::new(&exe).args(["child", "c12", &seed.to_string(), &size.to_string()]).env("RUST_BACKTRACE", "0").stdout(std::process::Stdio::null()).stderr(std::process::Stdio::null()).status() {
+            Ok(st) if st.success() => rep.count("processes.canary_ok", 1),
+            Ok(st) => {
+                use std::os::unix::process::ExitStatusExt;
+                rep.evaluations += 1;
+                rep.distinct.insert(1);
+                rep.violation("C12/process-crash", "battery", format!("a child process that runs the battery once dies (exit code {:?}, signal {:?}) instead of producing the sketches", st.code(), st.signal()), json!({"canary": true}));
+                return;
+            }
+            Err(e) => rep.inconclusive.push(format!("canary child could not be run: {}", e)),
+        }
+    }
     let reference = battery(seed, size);
     rep.evaluations += reference.len() as u64;
     for (name, d) in &reference {
